@@ -519,6 +519,9 @@ func runC18(c *core.Ctx) {
 	}
 	sort.Strings(want)
 	for _, race := range []bool{false, true} {
+		if race && c.Violations() > 0 {
+			break
+		}
 		bin, env, cases := "", []string{}, want
 		if race {
 			if c.RaceBin == "" {
